@@ -56,6 +56,11 @@ def _infover(y_true, y_pred):
     return float(np.mean(np.abs(yt - yp)))
 
 
+def _negmse(y_true, y_pred):
+    # a score (greater is better) whose values are all negative: the negated squared error
+    return -float(np.mean((np.asarray(y_true, dtype=float) - np.asarray(y_pred, dtype=float)) ** 2))
+
+
 def _ratio(y_true, y_pred):
     # asymmetric in its arguments and direction-free
     return float(np.sum(np.asarray(y_pred, dtype=float)) / (1.0 + np.sum(np.abs(np.asarray(y_true, dtype=float)))))
@@ -76,6 +81,8 @@ def build_metric(name):
         return make_forecasting_scorer(_nanflat, name="nanflat")
     if name == "infover":
         return make_forecasting_scorer(_infover, name="infover")
+    if name == "negmse":
+        return make_forecasting_scorer(_negmse, name="negmse", greater_is_better=True)
     raise ValueError(name)
 
 
@@ -100,6 +107,8 @@ def raw_metric(name):
         return _nanflat
     if name == "infover":
         return _infover
+    if name == "negmse":
+        return _negmse
     raise ValueError(name)
 
 
